@@ -142,7 +142,9 @@ impl<'a> ExpressionEvaluator<'a> {
                 ))])
             }
             BoundExpression::Exists { query, negated } => {
-                todo!("Subquery evaluation is not yet implemented")
+                Err(EvaluationError::InvalidExpression(
+                    "subquery evaluation is not supported".to_string(),
+                ))
             }
             BoundExpression::InList {
                 expr,
@@ -168,14 +170,18 @@ impl<'a> ExpressionEvaluator<'a> {
                 ))])
             }
             BoundExpression::Subquery { query, result_type } => {
-                todo!("Subquery evaluation is not yet implemented")
+                Err(EvaluationError::InvalidExpression(
+                    "subquery evaluation is not supported".to_string(),
+                ))
             }
             BoundExpression::InSubquery {
                 expr,
                 query,
                 negated,
             } => {
-                todo!("Subquery evaluation is not yet implemented")
+                Err(EvaluationError::InvalidExpression(
+                    "subquery evaluation is not supported".to_string(),
+                ))
             }
             BoundExpression::Function {
                 func,
@@ -269,7 +275,12 @@ impl<'a> ExpressionEvaluator<'a> {
                     }
                 }
             }
-            _ => unreachable!("Should not reach here when calling the evaluator"),
+            // Expressions that only make sense in a select list (`*`, aggregates) can
+            // still reach the evaluator from hostile or mistyped SQL: report, do not panic.
+            other => Err(EvaluationError::InvalidExpression(format!(
+                "expression cannot be evaluated here: {:?}",
+                other
+            ))),
         }
     }
 
